@@ -109,6 +109,10 @@ def tree_oracle(tree, text, words):
 
 
 FIXED = [
+    # words joined by `$` that the grammar takes apart again (PATHPULSE$in$out): a reserved word is no terminal name
+    ("module m; specify specparam PATHPULSE$module$q = (2, 9); endspecify endmodule\n", False),
+    ("module m; specify specparam PATHPULSE$clk$begin = (2, 9); endspecify endmodule\n", False),
+    ("`begin_keywords \"1800-2005\"\nmodule m; specify specparam PATHPULSE$logic$q = (2, 9); endspecify endmodule\n`end_keywords\n", False),
     ("module module; endmodule\n", False), ("module m; wire logic; endmodule\n", False),
     ("`begin_keywords \"1364-2001\"\nmodule m; wire logic; endmodule\n`end_keywords\n", True),
     ("`begin_keywords \"1364-2001\"\nmodule m; endmodule\n`end_keywords\nmodule n; wire logic; endmodule\n", False),
